@@ -1003,6 +1003,10 @@ func genC06(seed uint64, idx int) *Plan {
 	base := genScriptBase(r)
 	base.Chunks, base.ReadBuf, base.Trailer = nil, 0, nil
 	base.ExtraIn = max(base.ExtraIn, 2)
+	if idx%7 == 3 {
+		// merged key files: the key the hello is sealed to is listed twice
+		base.Keys = append(base.Keys, base.Target)
+	}
 	h := &HistoryPlan{Base: *base, Concurrent: r.IntN(3) == 0}
 	n := 1 + r.IntN(12)
 	// bias: most histories contain the HRR / second hello pair somewhere
